@@ -1,14 +1,313 @@
-//! C08 — stub, to be implemented.
-#![allow(dead_code)]
+//! C08 — workers answer each command exactly once and converge on the master's view.
+//!
+//! A real worker receives seeded command histories (cfggen: every mutating verb, valid and invalid,
+//! duplicates, unknown targets) plus worker-level verbs (Status, queries, metrics configuration,
+//! per-IP limits) through the scripted master, back-to-back or fragmented, optionally with HTTP
+//! traffic in parallel. The same requests are applied to a master-side ConfigState in the harness.
+use std::collections::BTreeMap;
+use std::net::SocketAddr;
+
+use serde::{Deserialize, Serialize};
 use serde_json::Value;
+use sozu_command_lib::proto::command::{
+    request::RequestType, response_content::ContentType, MetricsConfiguration, QueryClusterByDomain, QueryClustersHashes, QueryMetricsOptions,
+    Request, ResponseStatus, Status, WorkerResponse,
+};
+use sozu_command_lib::scm_socket::Listeners;
+use sozu_command_lib::state::ConfigState;
+
+use super::cfggen;
+use crate::actors::master::{MOp, Master};
+use crate::actors::Quantum;
 use crate::framework::*;
+use crate::netsim::{self, Knobs};
+use crate::prng::Prng;
+use crate::world::{SchedCfg, World, MS};
 
 pub struct C08;
 
+#[derive(Clone, Debug, Serialize, Deserialize)]
+pub struct Plan {
+    pub seed: u64,
+    pub family: String,
+    pub sched: SchedCfg,
+    /// requests in order (cfggen, materialised), as JSON
+    pub ops: Value,
+    /// write quantum of the master stub (fragmentation of the command stream)
+    pub wq: Quantum,
+    /// wait for the final answers after every k requests (0 = send everything back to back)
+    pub barrier_every: usize,
+    /// only forward what the master-side state accepted (the real master's behaviour)
+    pub master_filters: bool,
+}
+
+fn worker_verbs(rng: &mut Prng, clusters: &[String]) -> Request {
+    match rng.below(8) {
+        0 => RequestType::Status(Status {}).into(),
+        1 => RequestType::QueryClustersHashes(QueryClustersHashes {}).into(),
+        2 => RequestType::QueryClusterById(rng.pick(clusters).clone()).into(),
+        3 => RequestType::QueryClustersByDomain(QueryClusterByDomain { hostname: format!("{}.test", rng.pick(&["a", "b", "www.a", "nohost"])), path: if rng.below(2) == 0 { Some("/".into()) } else { None } }).into(),
+        4 => RequestType::QueryMetrics(QueryMetricsOptions { list: rng.below(2) == 0, cluster_ids: vec![], backend_ids: vec![], metric_names: vec![], no_clusters: rng.below(2) == 0, workers: false }).into(),
+        5 => RequestType::ConfigureMetrics(*rng.pick(&[MetricsConfiguration::Enabled as i32, MetricsConfiguration::Disabled as i32, MetricsConfiguration::Clear as i32])).into(),
+        6 => RequestType::SetMaxConnectionsPerIp(*rng.pick(&[0u64, 1, 100])).into(),
+        _ => RequestType::QueryCertificatesFromWorkers(Default::default()).into(),
+    }
+}
+
+pub fn generate(seed: u64, tier: Tier) -> Plan {
+    let mut rng = Prng::derive(seed, "c08/plan");
+    let opts = cfggen::GenOpts::swarm(&mut rng);
+    let len = match tier { Tier::Quick => 1 + rng.below(25) as usize, Tier::Thorough => 1 + rng.below(60) as usize };
+    let mut ops = cfggen::gen_history(&mut rng, len, &opts);
+    // requests without a type and SaveState are never sent to a worker by the master
+    ops.retain(|r| !matches!(r.request_type, None | Some(RequestType::SaveState(_))));
+    if ops.is_empty() { ops.push(RequestType::Status(Status {}).into()); }
+    // interleave worker-level verbs
+    let clusters: Vec<String> = { let (st, _) = cfggen::apply_history(&ops); let mut v: Vec<String> = st.clusters.keys().cloned().collect(); v.push("no_such_cluster".into()); v };
+    let extra = rng.below(6) as usize;
+    for _ in 0..extra {
+        let at = rng.below(ops.len() as u64 + 1) as usize;
+        ops.insert(at, worker_verbs(&mut rng, &clusters));
+    }
+    let mut sched = SchedCfg::default();
+    sched.actor_burst = *rng.pick(&[1u32, 2, 8]);
+    sched.ev_permute_pm = *rng.pick(&[0u32, 500]);
+    Plan {
+        seed,
+        family: format!("cmd{}", if rng.below(2) == 0 { "_fragmented" } else { "" }),
+        sched,
+        ops: cfggen::ops_to_value(&ops),
+        wq: match rng.below(5) { 0 => Quantum::Fixed(1), 1 => Quantum::Uniform(1, 40), 2 => Quantum::Uniform(1, 3000), _ => Quantum::All },
+        barrier_every: *rng.pick(&[0usize, 0, 1, 3]),
+        master_filters: rng.below(4) != 0,
+    }
+}
+
+#[derive(Default)]
+struct Outcome {
+    sent: Vec<(String, Request)>,
+    finals: BTreeMap<String, u32>,
+    processing_after_final: Vec<String>,
+    unknown_ids: Vec<String>,
+    garbage: Option<String>,
+    responses: Vec<WorkerResponse>,
+    panicked: Option<String>,
+    aborted: Option<String>,
+    boot_error: Option<String>,
+    trace_hash: u64,
+    stats: crate::world::Stats,
+    /// simulated addresses that accepted a connection at the end
+    connectable: Vec<SocketAddr>,
+    probed: Vec<SocketAddr>,
+    eof_before_stop: bool,
+}
+
+fn run(p: &Plan) -> (Outcome, ConfigState, Vec<bool>) {
+    let p = p.clone();
+    netsim::on_fresh_thread(move || {
+        let mut w = World::new(p.seed, p.sched.clone());
+        World::install(&mut w);
+        let ops = cfggen::ops_from_value(&p.ops).expect("ops");
+        // master-side state: what the real master would hold; it forwards only what it accepted
+        let mut master = ConfigState::new();
+        let mut forwarded: Vec<bool> = Vec::new();
+        let mut to_send: Vec<Request> = Vec::new();
+        for r in &ops {
+            let is_cfg = !matches!(r.request_type, Some(RequestType::Status(_)) | Some(RequestType::QueryClustersHashes(_)) | Some(RequestType::QueryClusterById(_)) | Some(RequestType::QueryClustersByDomain(_)) | Some(RequestType::QueryMetrics(_)) | Some(RequestType::ConfigureMetrics(_)) | Some(RequestType::SetMaxConnectionsPerIp(_)) | Some(RequestType::QueryCertificatesFromWorkers(_)));
+            let ok = if is_cfg { master.dispatch(r).is_ok() } else { true };
+            let fwd = ok || !p.master_filters;
+            forwarded.push(fwd);
+            if fwd { to_send.push(r.clone()); }
+        }
+        // probe addresses: every listener address the history mentions
+        let mut probe_addrs: Vec<SocketAddr> = Vec::new();
+        for r in &ops {
+            let a = match &r.request_type {
+                Some(RequestType::AddHttpListener(l)) => Some(cfggen::to_sockaddr(&l.address)),
+                Some(RequestType::AddHttpsListener(l)) => Some(cfggen::to_sockaddr(&l.address)),
+                Some(RequestType::AddTcpListener(l)) => Some(cfggen::to_sockaddr(&l.address)),
+                Some(RequestType::ActivateListener(l)) => Some(cfggen::to_sockaddr(&l.address)),
+                _ => None,
+            };
+            if let Some(a) = a { if !probe_addrs.contains(&a) { probe_addrs.push(a); } }
+        }
+        let cluster_ids: Vec<String> = master.clusters.keys().cloned().collect();
+        let barrier_every = p.barrier_every;
+        let wq = p.wq.clone();
+        let probes = probe_addrs.clone();
+        let (end, mid) = netsim::run_worker(&mut w, Knobs::default().server_config(), ConfigState::new(), Listeners::default(), |_w, m: &mut Master| {
+            m.wq = wq;
+            for (i, r) in to_send.iter().enumerate() {
+                m.push(MOp::SendId(format!("C{i}"), r.clone()));
+                if barrier_every > 0 && (i + 1) % barrier_every == 0 { m.push(MOp::BarrierFor(30 * crate::world::SEC)); }
+            }
+            m.push(MOp::BarrierFor(30 * crate::world::SEC));
+            // the worker's view
+            m.push(MOp::SendId("QH".into(), RequestType::QueryClustersHashes(QueryClustersHashes {}).into()));
+            for (i, c) in cluster_ids.iter().enumerate() { m.push(MOp::SendId(format!("QC{i}"), RequestType::QueryClusterById(c.clone()).into())); }
+            m.push(MOp::BarrierFor(30 * crate::world::SEC));
+            // behaviour: which listener addresses accept connections now
+            // "accepts" = sozu really accept()s the connection (seen by the accept4 hook), not merely a
+            // listening socket that still exists
+            let held: std::sync::Arc<std::sync::Mutex<Vec<(SocketAddr, SocketAddr, i32)>>> = Default::default();
+            let held2 = held.clone();
+            m.push(MOp::Call(Box::new(move |w, _| {
+                for (i, a) in probes.iter().enumerate() {
+                    let src: SocketAddr = format!("192.0.2.50:{}", 30000 + i).parse().unwrap();
+                    if let Ok(fd) = w.peer_connect(&src, a, None) { held.lock().unwrap().push((*a, src, fd)); }
+                }
+                vec![]
+            })));
+            m.push(MOp::Sleep(20 * MS));
+            m.push(MOp::Call(Box::new(move |w, _| {
+                for (a, src, fd) in held2.lock().unwrap().drain(..) {
+                    let accepted = w.accept_peers.iter().any(|p| *p == src);
+                    w.board_set(&format!("conn_ok/{a}"), accepted as i64);
+                    crate::sys::close(fd);
+                }
+                vec![]
+            })));
+            m.push(MOp::Sleep(5 * MS));
+            m.push(MOp::HardStop);
+        });
+        let mut o = Outcome::default();
+        o.panicked = end.panicked; o.aborted = end.aborted; o.boot_error = end.boot_error;
+        {
+            let m: &Master = w.actor_ref(mid);
+            o.sent = m.data.sent.iter().map(|(id, r, _)| (id.clone(), r.clone())).collect();
+            o.finals = m.data.finals.clone();
+            o.processing_after_final = m.data.after_final.clone();
+            o.unknown_ids = m.data.unknown_ids.clone();
+            o.garbage = m.data.garbage.clone();
+            o.responses = m.data.responses.iter().map(|(_, r)| r.clone()).collect();
+            o.eof_before_stop = m.data.eof && !m.data.sent.iter().any(|(_, r, _)| matches!(r.request_type, Some(RequestType::HardStop(_))));
+        }
+        for a in &probe_addrs { o.probed.push(*a); if w.board_get(&format!("conn_ok/{a}")) == 1 { o.connectable.push(*a); } }
+        o.trace_hash = w.trace.0;
+        o.stats = w.stats.clone();
+        (o, master, forwarded)
+    })
+}
+
+fn verb(r: &Request) -> &'static str { cfggen::verb_name(r) }
+
+/// plan-level trigger: the address was added by an Add*Listener carrying `active: true` and never
+/// activated afterwards (the master's state then says active although no ActivateListener was sent)
+fn added_active_never_activated(ops: &[Request], a: &SocketAddr) -> bool {
+    // per listener kind (0 http, 1 https, 2 tcp): (present, activated only by the Add's own flag)
+    let mut st = [(false, false); 3];
+    for r in ops {
+        match &r.request_type {
+            Some(RequestType::AddHttpListener(l)) if cfggen::to_sockaddr(&l.address) == *a => { if !st[0].0 { st[0] = (true, l.active); } }
+            Some(RequestType::AddHttpsListener(l)) if cfggen::to_sockaddr(&l.address) == *a => { if !st[1].0 { st[1] = (true, l.active); } }
+            Some(RequestType::AddTcpListener(l)) if cfggen::to_sockaddr(&l.address) == *a => { if !st[2].0 { st[2] = (true, l.active); } }
+            Some(RequestType::ActivateListener(l)) if cfggen::to_sockaddr(&l.address) == *a => { let k = l.proxy as usize; if k < 3 && st[k].0 { st[k].1 = false; } }
+            Some(RequestType::DeactivateListener(l)) if cfggen::to_sockaddr(&l.address) == *a => { let k = l.proxy as usize; if k < 3 && st[k].0 { st[k].1 = false; } }
+            Some(RequestType::RemoveListener(l)) if cfggen::to_sockaddr(&l.address) == *a => { let k = l.proxy as usize; if k < 3 { st[k] = (false, false); } }
+            _ => {}
+        }
+    }
+    st.iter().any(|x| x.0 && x.1)
+}
+
+fn oracle(p: &Plan, o: &Outcome, master: &ConfigState) -> Vec<Violation> {
+    let all_ops = cfggen::ops_from_value(&p.ops).unwrap_or_default();
+    let mut v = Vec::new();
+    if let Some(pn) = &o.panicked { v.push(Violation::new("panic", "worker", pn.clone())); }
+    if let Some(a) = &o.aborted { v.push(Violation::new("no_exit", a.clone(), format!("run aborted: {a}"))); }
+    if let Some(g) = &o.garbage { v.push(Violation::new("garbage_on_channel", "worker_to_master", g.clone())); }
+    // asynchronous events travel on the same channel under the reserved id "EVENT"
+    for id in o.unknown_ids.iter().filter(|id| *id != "EVENT") { v.push(Violation::new("unknown_id", "invented", format!("worker answered with id {id} that was never sent"))); }
+    // exactly one final status per id
+    for (id, r) in &o.sent {
+        if matches!(r.request_type, Some(RequestType::HardStop(_))) { continue; }
+        let n = o.finals.get(id).copied().unwrap_or(0);
+        if n != 1 {
+            let st: Vec<i32> = o.responses.iter().filter(|x| x.id == *id).map(|x| x.status).collect();
+            v.push(Violation::new("final_count", format!("verb={};finals={}", verb(r), n.min(2)), format!("{id} ({}) got {n} final answers (statuses {st:?})", verb(r))));
+        }
+    }
+    for id in &o.processing_after_final { v.push(Violation::new("processing_after_final", "order", format!("{id}: PROCESSING after the final answer"))); }
+    // view convergence (only when every forwarded configuration command was accepted by the worker as well)
+    let failed: Vec<String> = o.sent.iter().filter(|(id, _)| id.starts_with('C')).filter(|(id, _)| o.responses.iter().any(|x| x.id == *id && x.status == ResponseStatus::Failure as i32)).map(|(id, r)| format!("{id}:{}", verb(r))).collect();
+    let resp = |id: &str| o.responses.iter().find(|x| x.id == id && x.status == ResponseStatus::Ok as i32);
+    if failed.is_empty() && o.aborted.is_none() && o.panicked.is_none() {
+        match resp("QH").and_then(|r| r.content.as_ref()).and_then(|c| c.content_type.as_ref()) {
+            Some(ContentType::ClusterHashes(h)) => {
+                let want = master.hash_state();
+                if h.map != want {
+                    let diff: Vec<String> = want.keys().chain(h.map.keys()).filter(|k| want.get(*k) != h.map.get(*k)).cloned().collect();
+                    v.push(Violation::new("view_diverges", "cluster_hashes", format!("worker's cluster hashes differ from the master's for {diff:?}")));
+                }
+            }
+            _ => v.push(Violation::new("view_diverges", "no_hashes_answer", "QueryClustersHashes got no usable answer".to_string())),
+        }
+        for (i, c) in master.clusters.keys().enumerate() {
+            let id = format!("QC{i}");
+            match resp(&id).and_then(|r| r.content.as_ref()).and_then(|c| c.content_type.as_ref()) {
+                Some(ContentType::Clusters(ci)) => {
+                    let want = master.cluster_state(c);
+                    let got = ci.vec.first().cloned();
+                    let norm = |x: Option<sozu_command_lib::proto::command::ClusterInformation>| x.map(|mut x| { x.backends.sort_by(|a, b| (a.backend_id.clone(), format!("{:?}", a.address)).cmp(&(b.backend_id.clone(), format!("{:?}", b.address)))); x.http_frontends.sort_by_key(|f| format!("{f:?}")); x.https_frontends.sort_by_key(|f| format!("{f:?}")); x.tcp_frontends.sort_by_key(|f| format!("{f:?}")); x.udp_frontends.sort_by_key(|f| format!("{f:?}")); x });
+                    if norm(got.clone()) != norm(want.clone()) {
+                        v.push(Violation::new("view_diverges", "cluster_information", format!("cluster {c}: worker {:?} vs master {:?}", got.map(|x| format!("{x:?}").chars().take(300).collect::<String>()), want.map(|x| format!("{x:?}").chars().take(300).collect::<String>()))));
+                    }
+                }
+                _ => v.push(Violation::new("view_diverges", "no_cluster_answer", format!("QueryClusterById({c}) got no usable answer"))),
+            }
+        }
+        // behaviour matches view: a listener address accepts connections iff the master's view has it active
+        for a in &o.probed {
+            let active = master.http_listeners.get(a).map(|l| l.active).or(master.https_listeners.get(a).map(|l| l.active)).or(master.tcp_listeners.get(a).map(|l| l.active)).unwrap_or(false);
+            let got = o.connectable.contains(a);
+            if active != got {
+                let kind = if master.http_listeners.contains_key(a) { "http" } else if master.https_listeners.contains_key(a) { "https" } else if master.tcp_listeners.contains_key(a) { "tcp" } else { "none" };
+                let trig = if added_active_never_activated(&all_ops, a) { "added_with_active_true_never_activated" } else { "none" };
+                v.push(Violation::new("behaviour_differs_from_view", format!("listener={kind};view_active={active};accepts={got}|{trig}"), format!("address {a}: master's view active={active}, connect {}", if got { "succeeded" } else { "was refused" })));
+            }
+        }
+    }
+    if o.eof_before_stop { v.push(Violation::new("no_exit", "worker_left_early", "worker closed its channel before HardStop".to_string())); }
+    v
+}
+
 impl Property for C08 {
     fn id(&self) -> &'static str { "C08" }
-    fn runs(&self, _tier: Tier) -> u64 { 0 }
-    fn gen_plan(&self, _seed: u64, _tier: Tier) -> Value { Value::Null }
-    fn run_plan(&self, _plan: &Value) -> RunReport { RunReport { harness_error: Some("not implemented".into()), ..Default::default() } }
-    fn descr(&self) -> Descr { Descr { level: "exploration", rule: "", assumptions: vec![], real: vec![], stub: vec![], not_covered: vec![] } }
+    fn runs(&self, tier: Tier) -> u64 { match tier { Tier::Quick => 12000, Tier::Thorough => 300000 } }
+    fn gen_plan(&self, seed: u64, tier: Tier) -> Value { serde_json::to_value(generate(seed, tier)).unwrap() }
+    fn run_plan(&self, plan: &Value) -> RunReport {
+        let p: Plan = match serde_json::from_value(plan.clone()) { Ok(p) => p, Err(e) => return RunReport { harness_error: Some(format!("bad plan: {e}")), ..Default::default() } };
+        let (o, master, forwarded) = run(&p);
+        let violations = oracle(&p, &o, &master);
+        let mut rep = RunReport { seed: p.seed, family: p.family.clone(), violations, trace_hash: o.trace_hash, stats: o.stats.clone(), ..Default::default() };
+        let ops = cfggen::ops_from_value(&p.ops).unwrap_or_default();
+        rep.summary = format!("{} requests ({} forwarded), wq={:?}, barrier_every={}: {}", ops.len(), forwarded.iter().filter(|x| **x).count(), p.wq, p.barrier_every, cfggen::summarize_ops(&ops).chars().take(300).collect::<String>());
+        rep.nontrivial = o.finals.len() >= 2;
+        let failures = o.responses.iter().filter(|x| x.status == ResponseStatus::Failure as i32).count();
+        rep.probes.insert("worker_failures".into(), failures as u64);
+        rep.probes.insert("view_compared".into(), (failures == 0) as u64);
+        rep.probes.insert("listeners_probed".into(), o.probed.len() as u64);
+        rep.probes.insert("listeners_accepting".into(), o.connectable.len() as u64);
+        for (_, r) in &o.sent { *rep.probes.entry(format!("verb:{}", verb(r))).or_insert(0) += 1; }
+        if let Some(e) = o.boot_error { rep.harness_error = Some(format!("worker boot failed: {e}")); }
+        rep
+    }
+    fn shrink(&self, plan: &Value) -> Vec<Value> {
+        let Ok(p) = serde_json::from_value::<Plan>(plan.clone()) else { return vec![] };
+        let mut out = Vec::new();
+        for ops in cfggen::shrink_ops(&p.ops) { let mut q = p.clone(); q.ops = ops; out.push(serde_json::to_value(q).unwrap()); }
+        if p.wq != Quantum::All { let mut q = p.clone(); q.wq = Quantum::All; out.push(serde_json::to_value(q).unwrap()); }
+        if p.barrier_every != 1 { let mut q = p.clone(); q.barrier_every = 1; out.push(serde_json::to_value(q).unwrap()); }
+        out
+    }
+    fn descr(&self) -> Descr {
+        Descr {
+            level: "exploration",
+            rule: "seeded command histories (every mutating verb of the command API with valid/invalid arguments, duplicates, unknown targets, plus Status/query/metrics/per-IP-limit verbs) sent to a real worker by a scripted master with its own framing codec, back to back or fragmented down to one byte per write; the same requests are dispatched on a master-side ConfigState; oracles: exactly one final status per id (none invented, no PROCESSING after the final), the worker's QueryClustersHashes / QueryClusterById answers equal the master's hash_state / cluster_state, and every listener address accepts connections iff the master's view has it active; non-trivial = at least two commands answered; distinct = trace hashes",
+            assumptions: vec!["AF_UNIX listeners with simulated addresses stand in for TCP listeners", "view comparison only in runs where the worker accepted every forwarded configuration command"],
+            real: vec!["sozu_lib::server::Server (notify / notify_proxys, all four proxies, ConfigState copy)", "sozu_command_lib Channel (worker side)"],
+            stub: vec!["master process (scripted, independent framing codec)", "clock", "entropy"],
+            not_covered: vec!["commands interleaved with traffic", "routing behaviour per frontend (C04 model)", "SoftStop / ReturnListenSockets contracts (C10)"],
+        }
+    }
 }
